@@ -160,7 +160,7 @@ def w2(F, rep):
                 ok = w <= 25 and (v is None or v < (1 << w))
                 if name != EB or v is None:
                     rep.add("W2", "width:%s#%d" % (name.split("::")[-1], sum(1 for b2, _ in _calls_named(fb, "BitWriter::write") if b2 < bb)), ok, fb.where(bb), "write(%s, %d)" % (v, w))
-    rep.floor("W2", "constant-width-writes", n, 8)
+    rep.floor("W2", "constant-width-writes", n, 4)
 
 
 def w2b(ctx, rep):
@@ -205,7 +205,7 @@ def w2b(ctx, rep):
             rep.add("W2", "width<=25:%s#%d" % (name.replace(P, ""), k), ok, fb.where(bb),
                     "upper bound of the width %s is %s (the 32-bit buffer holds 7 pending bits + 25)" % (flow.describe(fb, t["args"][2], names=True), v))
             k += 1
-    rep.floor("W2", "bit-writes", n, 12)
+    rep.floor("W2", "bit-writes", n, 6)
 
 
 def w3(F, rep):
